@@ -319,6 +319,46 @@ fn case(rec: &mut Rec, ctx: &Ctx, idx: u64, rng: &mut ChaCha20Rng) {
   }
 }
 
+/// every threshold 1..=T once: t independent share() calls, recovery from exactly
+/// those t shares in shuffled order, and from t-1 of them
+fn threshold_sweep(rec: &mut Rec, _ctx: &Ctx, t: u64, rng: &mut ChaCha20Rng) {
+  let t = t as u32 + 1;
+  let m = rand_bytes_in(rng, 1..48);
+  let r = rand_bytes_in(rng, 16..48);
+  rec.evals += 1;
+  rec.ev("threshold_sweep");
+  rec.case(&("threshold", t));
+  let mut shares: Vec<Share> = Vec::with_capacity(t as usize);
+  for _ in 0..t {
+    rec.ev("share");
+    match Commune::new(t, m.clone(), r.clone(), None).share() {
+      Ok(s) => shares.push(s),
+      Err(e) => {
+        rec.violation("share-failed", format!("threshold {}: {}", t, e), json!({"t": t}));
+        return;
+      }
+    }
+  }
+  shares.shuffle(rng);
+  let rp = json!({"t": t, "message": hex(&m), "coins": hex(&r)});
+  rec.ev("recover");
+  match recover(&shares) {
+    Ok(c2) if c2.get_message() == m => {}
+    Ok(_) => rec.violation("recover-wrong:threshold-sweep", format!("threshold {}: t independent shares recovered another message", t), rp.clone()),
+    Err(e) => rec.violation("recover-failed:threshold-sweep", format!("threshold {}: t independent shares with distinct points do not recover: {}", t, e), rp.clone()),
+  }
+  if t >= 2 {
+    rec.ev("recover_below");
+    if recover(&shares[1..]).is_ok() {
+      rec.violation("recovered-below-threshold:threshold-sweep", format!("threshold {}: t-1 shares recovered", t), rp);
+    }
+  }
+}
+
 pub fn run(ctx: &Ctx) -> Rec {
-  par_run(ctx, "sharing", ctx.n(6000, 100_000), |rec, i, rng| case(rec, ctx, i, rng))
+  let mut rec = par_run(ctx, "sharing", ctx.n(6000, 100_000), |rec, i, rng| case(rec, ctx, i, rng));
+  let tmax: u64 = if ctx.thorough() { 1400 } else { 320 };
+  rec.merge(par_run(ctx, "threshold-sweep", tmax, |rec, i, rng| threshold_sweep(rec, ctx, tmax - 1 - i, rng)));
+  rec.note("threshold_sweep_max", json!(tmax));
+  rec
 }
